@@ -235,7 +235,15 @@ def rule_build_frame(ctx):
         C08.rule_frame(ctx)
 
 
+def rule_qm(ctx):
+    """'any letter case in the qualifier keys' is honoured by the qualifier map: the keys reported are the stored ones, found
+    and ordered by its comparator (C11's representation invariant)."""
+    from . import C11
+    C11.invariant_obligations(ctx, ctx.facts(), rule="QM-INV")
+
+
 RULES = [
+    ("QM-INV", rule_qm, 40),
     ("GRAMMAR", lambda ctx: (rule_grammar(ctx), rule_segments(ctx), rule_qloop(ctx)), 23),
     ("DECODE-ALL", lambda ctx: None, 7),
     ("ALPHABET", rule_alphabet, 2),
